@@ -30,6 +30,7 @@ import (
 	envoy "github.com/envoyproxy/go-control-plane/envoy/service/auth/v3"
 	"github.com/lestrrat-go/jwx/v2/jwk"
 
+	configv1 "github.com/istio-ecosystem/authservice/config/gen/go/v1"
 	oidcv1 "github.com/istio-ecosystem/authservice/config/gen/go/v1/oidc"
 	"github.com/istio-ecosystem/authservice/internal"
 	"github.com/istio-ecosystem/authservice/internal/authz"
@@ -43,7 +44,14 @@ type keyring struct {
 	next          *rsa.PrivateKey
 	kid           string
 	set, set2     jwk.Set
-	rotated       bool // the key source now serves the rotated set: only tokens signed with `next` verify
+	doc, doc2     string // the JWKS documents of `set` and `set2`
+	rotated       bool   // the key source now serves the rotated set: only tokens signed with `next` verify
+}
+
+// jwksDoc renders a one-key JWKS document.
+func jwksDoc(pub *rsa.PublicKey, kid string) string {
+	return fmt.Sprintf(`{"keys":[{"kty":"RSA","alg":"RS256","use":"sig","kid":"%s","n":"%s","e":"%s"}]}`,
+		kid, b64(pub.N.Bytes()), b64(big.NewInt(int64(pub.E)).Bytes()))
 }
 
 var (
@@ -64,7 +72,7 @@ func keys() *keyring {
 			k.kid, b64(g.N.Bytes()), b64(big.NewInt(int64(g.E)).Bytes()))
 		set, err := jwk.Parse([]byte(doc))
 		must(err)
-		k.set = set
+		k.set, k.doc = set, doc
 		n, err := rsa.GenerateKey(rand.Reader, 2048)
 		must(err)
 		k.next = n
@@ -72,7 +80,7 @@ func keys() *keyring {
 			k.kid, b64(n.N.Bytes()), b64(big.NewInt(int64(n.E)).Bytes()))
 		set2, err := jwk.Parse([]byte(doc2))
 		must(err)
-		k.set2 = set2
+		k.set2, k.doc2 = set2, doc2
 		theKeys = k
 	})
 	return theKeys
@@ -85,7 +93,8 @@ type tokSpec struct {
 	Aud   any    // string, []string or nil
 	Nonce any    // string, number, nil (absent)...
 	Sub   string
-	Extra string // marker to make token strings unique
+	Extra string          // marker to make token strings unique
+	Key   *rsa.PrivateKey `json:"-"` // sign with this key instead of the world's (mode good)
 }
 
 func mintToken(s tokSpec) string {
@@ -125,6 +134,9 @@ func mintToken(s tokSpec) string {
 	cur := k.good
 	if k.rotated {
 		cur = k.next
+	}
+	if s.Key != nil {
+		cur = s.Key
 	}
 	switch s.Mode {
 	case "good", "nokid", "wrongkid":
@@ -300,12 +312,29 @@ type fakeIDP struct {
 	gate     func(what string)     // optional: called when a request arrives (controlled scheduling)
 	disc     map[string]discAnswer // discovery documents by path
 	discGets map[string]int
+	jwksDoc  string // served at /jwks
+	jwksGets int
 }
+
+func (f *fakeIDP) setJWKS(doc string) { f.mu.Lock(); f.jwksDoc = doc; f.mu.Unlock() }
 
 func newFakeIDP() *fakeIDP {
 	f := &fakeIDP{}
 	f.srv = httptest.NewServer(http.HandlerFunc(func(w http.ResponseWriter, r *http.Request) {
 		if f.serveDiscovery(w, r) {
+			return
+		}
+		if r.URL.Path == "/jwks" {
+			f.mu.Lock()
+			doc := f.jwksDoc
+			f.jwksGets++
+			f.mu.Unlock()
+			if doc == "" {
+				w.WriteHeader(404)
+				return
+			}
+			w.Header().Set("Content-Type", "application/json")
+			_, _ = w.Write([]byte(doc))
 			return
 		}
 		_ = r.ParseForm()
@@ -513,9 +542,10 @@ type scriptedJWKS struct {
 	ok    bool
 	calls int
 	gate  func(string)
+	real  oidc.JWKSProvider // when set: the REAL DefaultJWKSProvider answers from the filter's configured key source
 }
 
-func (j *scriptedJWKS) Get(context.Context, *oidcv1.OIDCConfig) (jwk.Set, error) {
+func (j *scriptedJWKS) Get(ctx context.Context, cfg *oidcv1.OIDCConfig) (jwk.Set, error) {
 	if j.gate != nil {
 		j.gate("keys")
 	}
@@ -525,6 +555,9 @@ func (j *scriptedJWKS) Get(context.Context, *oidcv1.OIDCConfig) (jwk.Set, error)
 	j.calls++
 	if !j.ok {
 		return nil, errors.New("jwks unavailable")
+	}
+	if j.real != nil {
+		return j.real.Get(ctx, cfg)
 	}
 	if keys().rotated {
 		return keys().set2, nil
@@ -548,6 +581,7 @@ type hCfg struct {
 	LogoutPath, LogoutURI  string
 	Store                  string
 	Abs, Idle              time.Duration
+	RealKeys               string // "" scripted key source | "static" | "fetcher": the real DefaultJWKSProvider on the configured JWKS
 }
 
 func (c hCfg) proto(idpBase string) *oidcv1.OIDCConfig {
@@ -567,6 +601,12 @@ func (c hCfg) proto(idpBase string) *oidcv1.OIDCConfig {
 	}
 	if c.Logout {
 		o.Logout = &oidcv1.LogoutConfig{Path: c.LogoutPath, RedirectUri: c.LogoutURI}
+	}
+	switch c.RealKeys {
+	case "static":
+		o.JwksConfig = &oidcv1.OIDCConfig_Jwks{Jwks: keys().doc}
+	case "fetcher":
+		o.JwksConfig = &oidcv1.OIDCConfig_JwksFetcher{JwksFetcher: &oidcv1.OIDCConfig_JwksFetcherConfig{JwksUri: idpBase + "/jwks", PeriodicFetchIntervalSec: 3600}}
 	}
 	return o
 }
@@ -656,6 +696,12 @@ func newHWorld(c hCfg) *hWorld {
 	w.rig = newStoreRig(c.Store, c.Abs, c.Idle, 1_700_000_000_000_000_000)
 	w.spy = &spyStore{real: w.rig.inst[0], rec: rec}
 	w.oc = c.proto(w.idp.srv.URL)
+	if c.RealKeys != "" {
+		p := oidc.NewJWKSProvider(&configv1.Config{Chains: []*configv1.FilterChain{{Name: "c", Filters: []*configv1.Filter{{Type: &configv1.Filter_Oidc{Oidc: w.oc}}}}}}, w.pool)
+		go func() { _ = p.ServeContext(ctx) }()
+		w.jwks.real = p
+		w.idp.setJWKS(keys().doc)
+	}
 	return w
 }
 
